@@ -296,6 +296,52 @@ async fn run_case(c: &ConvCase, mode: Mode, info: &mut CaseInfo) -> CheckResult 
             return Ok(());
         }
     }
+    // forced overwrite with an arbitrary remote history: in a third of the cases device 1 force
+    // merges device 0's (diverged) log of every folder both serve under the same key, before any
+    // sync - the path a hard conflict without a shared ancestor takes
+    if c.skews.first().copied().unwrap_or(0) % 3 == 0 && !c.offline.iter().flatten().any(|e| matches!(e, Edit::ChangeFolderPassword { .. })) {
+        use sos_core::events::{patch::{FolderDiff, Patch}, EventRecord};
+        use sos_sync::{ForceMerge, MergeOutcome};
+        let src = {
+            let a = w.devices[0].account.lock().await;
+            all_logs(&*a).await?
+        };
+        let dst_folders: BTreeSet<String> = {
+            let a = w.devices[1].account.lock().await;
+            all_logs(&*a).await?.keys().cloned().collect()
+        };
+        let mut forced = 0;
+        for (name, log) in &src {
+            let Some(id) = name.strip_prefix("folder:") else { continue };
+            if !dst_folders.contains(name) || log.is_empty() {
+                continue;
+            }
+            let Ok(fid) = id.parse::<sos_core::VaultId>() else { continue };
+            let records: Vec<EventRecord> = log
+                .iter()
+                .map(|r| {
+                    let t = time::OffsetDateTime::from_unix_timestamp_nanos(r.time).unwrap();
+                    EventRecord::new(sos_core::UtcDateTime::from(t), Default::default(), sos_core::commit::CommitHash(r.commit), r.bytes.clone())
+                })
+                .collect();
+            let mut tree = sos_core::commit::CommitTree::new();
+            let mut leaves: Vec<[u8; 32]> = log.iter().map(|r| r.commit).collect();
+            tree.append(&mut leaves);
+            tree.commit();
+            let checkpoint = tree.head().map_err(hf("harness/head", "head of the forced history"))?;
+            let mut a = w.devices[1].account.lock().await;
+            let mut outcome = MergeOutcome::default();
+            a.force_merge_folder(&fid, FolderDiff { last_commit: None, checkpoint, patch: Patch::new(records) }, &mut outcome)
+                .await
+                .map_err(|e| Failure::new("merge/force-merge-error", format!("force_merge_folder of a valid history failed: {e}")))?;
+            forced += 1;
+        }
+        if forced > 0 {
+            info.class("direct-force-merge");
+            info.nontrivial = true;
+            oracle(&w, 1, mode, "a direct force merge of device 0's folder logs into device 1").await?;
+        }
+    }
     let mut order: Vec<usize> = c.order.iter().map(|x| (*x as usize) % ndev).collect();
     for _ in 0..3 {
         order.extend(0..ndev);
